@@ -275,7 +275,7 @@ class C14(core.Check):
                         'pos:zero-length@end': 2, 'pos:zero-length@start': 2, 'pos:zero-length@before-org-gap': 2,
                         'pos:zero-length@muted': 2, 'pos:zero-length@end-after-label': 2, 'outcome:success': 3,
                         'outcome:failure': 3, 'output-in-missing-directory': 3, 'long-run:directed': 20, 'odd-spacing:directed': 10, 'corpus-example': 2, 'window-options': 3,
-                        'planted:symbol-cycle': 3, 'no-image-asked-for': 3, 'page-local-target:page-0': 3, 'corruption:name-defined-in-an-uncompiled-branch-only': 3, 'corruption:label-of-another-file-of-the-include-chain': 3, 'symbol-cycle:use-before-it-closes': 3, 'symbol-cycle:first-from-cmdline': 3,
+                        'planted:symbol-cycle': 3, 'no-image-asked-for': 3, 'page-local-target:page-0': 3, 'corruption:name-defined-in-an-uncompiled-branch-only': 3, 'corruption:label-of-another-file-of-the-include-chain': 3, 'corruption:text-behind-a-complete-operand': 3, 'symbol-cycle:use-before-it-closes': 3, 'symbol-cycle:first-from-cmdline': 3,
                         'symbol-cycle:first-from-config': 3}
 
     def make(self, isa_files, isa_name, main, src, fmt, planted, tags, missing_dir=False, extra_argv=()):
@@ -395,6 +395,13 @@ class C14(core.Check):
                 yield self.make(files_, fn, 'p.asm', '\n'.join(Lf) + '\n', None, 'unresolvable-label',
                                 {'corruption:label-of-another-file-of-the-include-chain', 'fmt:None', 'planted:unresolvable-label',
                                  'pos:' + ('first' if at == 0 else 'last')})
+        # text behind a complete operand is not part of any operand form: no variant takes the statement
+        for k_, ins in enumerate(['c14_rl:\nbra {c14_rl} @!xyz', 'c14_rl:\nbra {c14_rl} 5', 'c14_rl:\nbra {c14_rl}}', 'c14_rl:\nbra {c14_rl} {c14_rl}',
+                                  'ldx [sp+1] 2', 'ldx [sp] ]', 'lix sp+1 ]', 'liy [a+1] b', 'ldq [5] 6', 'psh sp++ +', 'sel eq ne', 'inr a b']):
+            at = [0, len(lines) // 2, len(lines)][k_ % 3]
+            Lt = lines[:at] + [ins] + lines[at:]
+            yield self.make({fn: itext}, fn, 'p.asm', '\n'.join(Lt) + '\n', None, 'no-variant-accepts',
+                            {'corruption:text-behind-a-complete-operand', 'fmt:None', 'planted:no-variant-accepts', 'pos:' + ['first', 'middle', 'last'][k_ % 3]})
         # a page-local target outside the instruction's page does not fit its field, wherever the two pages are
         for k_, (ia_, ta_) in enumerate([(0x0200, 0x0010), (0x0300, 0x00FF), (0x0100, 0x0000), (0x0200, 0x0300), (0x0210, 0x01FF),
                                          (0x4000, 0x0040), (0x0100, 0x4001)]):
